@@ -13,6 +13,7 @@ function; the same program is evaluated by the lazy reference evaluator
 For eager operations (filter(lazy=False), sort, cache(lazy=False)) the
 construction-time log is recorded, not judged; what follows is judged.
 """
+import os
 import itertools
 import collections
 
@@ -477,6 +478,61 @@ def run_stores(spec, res):
                         res.violation('function-applied-twice', case,
                                       {'calls_per_example': dict(calls)},
                                       sig={'last_op': sn, 'stores': True, 'values': vn})
+
+
+    # two handles on ONE cache directory alive at the same time (two datasets
+    # opened on it with reuse=True; a dataset and its deep copy / pickle round
+    # trip): what one of them stored is there for the other one
+    import copy
+    import pickle
+    import shutil
+    import tempfile
+    for n in (4, 9):
+        for second in ('opened-on-the-directory', 'deepcopy', 'pickle'):
+            for order in ('a-then-b', 'alternating'):
+                case = {'stores': True, 'n': n, 'store': 'diskcache', 'two_handles': second,
+                        'order': order}
+                calls = collections.Counter()
+
+                def fn(i, calls=calls):
+                    calls[i] += 1
+                    return {'id': i}
+                res.case(('two-handles', n, second, order), True)
+                tmp = tempfile.mkdtemp(prefix='verif_c08_')
+                try:
+                    base = ld.new({f'k{i}': i for i in range(n)}).map(fn)
+                    a = base.diskcache(os.path.join(tmp, 'c'), reuse=True, clear=False)
+                    a[0]
+                    if second == 'deepcopy':
+                        b = copy.deepcopy(a)
+                    elif second == 'pickle':
+                        b = pickle.loads(pickle.dumps(a))
+                    else:
+                        b = base.diskcache(os.path.join(tmp, 'c'), reuse=True, clear=False)
+                    if order == 'a-then-b':
+                        got = [list(a), list(b), [b[i - n] for i in range(n)], list(a.items())]
+                    else:
+                        got = [[(a if i % 2 else b)[i] for i in range(n)],
+                               [(b if i % 2 else a)[f'k{i}'] for i in range(n)], list(b)]
+                    del a, b
+                except (pickle.PicklingError, AttributeError, TypeError):
+                    res.count('store_reads_not_offered')      # local function, not picklable
+                    continue
+                except BaseException as e:
+                    res.violation('construction-raised', case, exc_sig(e),
+                                  sig={'last_op': 'diskcache', 'stores': True,
+                                       'two_handles': second})
+                    continue
+                finally:
+                    shutil.rmtree(tmp, ignore_errors=True)
+                res.count('store_histories_checked')
+                res.count('two_handle_store_histories_checked')
+                twice = {i: c for i, c in calls.items() if c > 1}
+                if twice or sorted(calls) != list(range(n)):
+                    res.violation('function-applied-twice', case,
+                                  {'calls_per_example': dict(calls)},
+                                  sig={'last_op': 'diskcache', 'stores': True,
+                                       'two_handles': second})
 
 
 def finalize(res, tier):
